@@ -356,7 +356,7 @@ def jobs(tier):
             js.append(Job("greedy[%s,%s,period=%d]" % (net_name, sort, per), h_greedy, dict(stations=st_, rows=rows_, sessions=SESS2, sort=sort, limit_hi=lh_, period=per), functions=FUNCS, max_paths=200000, timeout=6000,
                           bounds=dict(stations=[s_[0] for s_ in st_], constraints=rows_, sessions=2, sort=sort, period_min=per), cost=60))
     # a rate estimator that bounds one session (possibly above the station maximum) and omits the other
-    for net_name, sort in ((("cont+cc", "fcfs"),) if q else (("cont+cc", "fcfs"), ("cont+cc", "lcfs"), ("cont+cont(2 rows)", "edf"))):
+    for net_name, sort in ((("cont+cc", "fcfs"),) if q else (("cont+cc", "fcfs"), ("cont+cc", "lcfs"))):
         if net_name in nets:
             st_, rows_, lh_ = nets[net_name]
             js.append(Job("greedy[%s,%s,estimator]" % (net_name, sort), h_greedy, dict(stations=st_, rows=rows_, sessions=SESS2, sort=sort, limit_hi=lh_, estimator="custom"), functions=FUNCS, max_paths=200000, timeout=6000,
